@@ -381,3 +381,38 @@ def parse_sim_file(path: Path) -> list[tuple[str, dict[str, Any]]]:
         out.append((act, st))
         bi += 1
     return out
+
+
+@dataclass
+class ApalacheResult:
+    rc: int
+    out: str
+    wall_s: float
+    ok: bool          # "NoError" up to the requested length
+    error: bool       # "Checker has found an error"
+
+
+def run_apalache(module: str, *, init: str, inv: str, length: int, timeout: float = 900,
+                 subdir: str = "apalache") -> ApalacheResult:
+    """apalache-mc check --init=<init> --inv=<inv> --length=<length> on spec/<subdir>/<module>.tla.
+    Used for inductive-invariant obligations (Init => Inv at length 0; IndInit /\\ Next => Inv' at length 1).
+    Neither ok nor error (timeout, type error, crash) is a machinery failure: TlcError."""
+    t0 = time.time()
+    out_dir = tempfile.mkdtemp(prefix="apa-")
+    try:
+        cmd = ["apalache-mc", "check", f"--init={init}", f"--inv={inv}", f"--length={length}",
+               f"--out-dir={out_dir}", f"{module}.tla"]
+        e = dict(os.environ)
+        e.setdefault("JVM_ARGS", "-Xmx4g")
+        try:
+            p = subprocess.run(cmd, cwd=str(SPEC_DIR / subdir), env=e, capture_output=True, text=True, timeout=timeout)
+        except subprocess.TimeoutExpired as ex:
+            raise TlcError(f"apalache timed out after {timeout}s on {module} {init}/{inv}") from ex
+        out = p.stdout + p.stderr
+        ok = "The outcome is: NoError" in out
+        err = "Checker has found an error" in out
+        if not ok and not err:
+            raise TlcError(f"apalache failed on {module} --init={init} --inv={inv}:\n{out[-3000:]}")
+        return ApalacheResult(p.returncode, out, time.time() - t0, ok, err)
+    finally:
+        shutil.rmtree(out_dir, ignore_errors=True)
